@@ -62,10 +62,31 @@ def build_liesel_model2():
     return lsl.GraphBuilder().add(y, s_).build_model()
 
 
+# third Liesel model: a discrete variable sampled by the built-in finite-discrete Gibbs kernel; the user assigns a
+# start value on the model *after* the kernels were created and hands model.state to the engine
+Y3 = np.array([1.9, 3.1, 2.4], np.float32)
+PARAMS3 = ["z", "mu"]
+SIZES3 = [1, 1]
+DERIVED3 = ["mu_log_prob", "z_log_prob", "_model_log_prob", "_model_log_lik", "_model_log_prior"]
+DSIZES3 = [1, 1, 1, 1, 1]
+
+
+def build_liesel_model3():
+    z = lsl.param(jnp.asarray(1), lsl.Dist(tfd.Bernoulli, probs=lsl.Value(0.3)), name="z")
+    mu = lsl.param(jnp.float32(0.0), lsl.Dist(tfd.Normal, loc=0.0, scale=2.0), name="mu")
+    y = lsl.obs(jnp.asarray(Y3), lsl.Dist(tfd.Normal, loc=lsl.Calc(lambda m, z: m + z, mu, z), scale=1.0), name="y")
+    return lsl.GraphBuilder().add(y).build_model()
+
+
 def closed_form(model_kind, after):
     """Derived quantities in float64 from the recorded parameters, without any liesel object."""
     import scipy.stats as st
     f = np.asarray(after, np.float64)
+    if model_kind == "liesel3":
+        z, mu = f
+        ll = st.norm(mu + z, 1.0).logpdf(Y3.astype(np.float64)).sum()
+        lmu, lz = st.norm(0, 2).logpdf(mu), np.log(0.3 if z == 1 else 0.7)
+        return [lmu, lz, ll + lmu + lz, ll, lmu + lz]
     if model_kind == "liesel2":
         a, bb, ht, ut = f
         hi = np.exp(ht)
@@ -122,11 +143,14 @@ def mh_prop(key, model_state_pos, step):
     raise NotImplementedError
 
 
-def make_kernels(spec, interface):
+def make_kernels(spec, interface, user_model=None):
     """spec: list of (kind, keys)"""
     out = []
     for kind, keys in spec:
-        if kind == "rw":
+        if kind == "fdgibbs":
+            from liesel.model.goose import finite_discrete_gibbs_kernel
+            k = finite_discrete_gibbs_kernel(keys[0], user_model, outcomes=[0, 1])
+        elif kind == "rw":
             k = gs.RWKernel(keys, initial_step_size=0.3)
         elif kind == "iwls":
             k = gs.IWLSKernel(keys, initial_step_size=0.7)
@@ -162,6 +186,8 @@ SEQS = {
     # for the second Liesel model
     "rw_hi_u_ab": [("rw", ["hi_transformed"]), ("rw", ["u_transformed"]), ("iwls", ["a", "bb"])],
     "nuts_u_rw": [("rw", ["a"]), ("nuts", ["hi_transformed", "bb"]), ("rw", ["u_transformed"])],
+    # for the third Liesel model
+    "fdgibbs_rw": [("fdgibbs", ["z"]), ("rw", ["mu"])],
 }
 IDENTS = ["zz_first", "mm_second", "aa_third"]     # sorted order differs from configured order
 
@@ -170,10 +196,12 @@ def run(seq="iwls_rw_gibbs", model_kind="liesel", chains=2, seed=0, custom_ident
         schedule=((1, 4), (3, 2), (4, 4))):
     spec = SEQS[seq]
     PARAMS, SIZES, DERIVED, DSIZES = ((PARAMS2, SIZES2, DERIVED2, DSIZES2) if model_kind == "liesel2"
+                                      else (PARAMS3, SIZES3, DERIVED3, DSIZES3) if model_kind == "liesel3"
                                       else (PARAMS1, SIZES1, DERIVED1, DSIZES1))
+    builders = {"liesel": build_liesel_model, "liesel2": build_liesel_model2, "liesel3": build_liesel_model3}
     npar, nder = sum(SIZES), (sum(DSIZES) if model_kind.startswith("liesel") else 1)
     if model_kind.startswith("liesel"):
-        user_model = build_liesel_model2() if model_kind == "liesel2" else build_liesel_model()
+        user_model = builders[model_kind]()
         interface = gs.LieselInterface(user_model)
         init = user_model.state
 
@@ -188,7 +216,11 @@ def run(seq="iwls_rw_gibbs", model_kind="liesel", chains=2, seed=0, custom_ident
         def obs_fn(model, before, after, info, epoch, key):
             f = lambda s: [x for n in PARAMS for x in jnp.ravel(jnp.asarray(s[n], jnp.float32))]  # noqa: E731
             return f(before) + f(after) + [model.log_prob(after)]
-    inner = make_kernels(spec, interface)
+    inner = make_kernels(spec, interface, user_model if model_kind.startswith("liesel") else None)
+    if model_kind == "liesel3":
+        # start values assigned on the user's model after the kernels were created
+        user_model.vars["mu"].value = jnp.float32(2.5)
+        init = user_model.state
     total = sum(d for _, d in schedule)
     wraps = [WrapKernel(k, n_tun=0, obs_fn=obs_fn, n_obs=2 * npar + nder, cap=total + 4 * len(schedule) + 8,
                         tun_fn=lambda ks: []) for k in inner]
@@ -214,7 +246,7 @@ def run(seq="iwls_rw_gibbs", model_kind="liesel", chains=2, seed=0, custom_ident
         offs[n] = list(range(off + 1, off + s + 1))
         off += s
     traces = []
-    recomp_model = (build_liesel_model2() if model_kind == "liesel2" else build_liesel_model()) if model_kind.startswith("liesel") else None
+    recomp_model = builders[model_kind]() if model_kind.startswith("liesel") else None
     for c in range(chains):
         per_kernel = {}
         for ki in range(len(wraps)):
@@ -248,12 +280,13 @@ def run(seq="iwls_rw_gibbs", model_kind="liesel", chains=2, seed=0, custom_ident
 
 def recompute(model_kind, model, after):
     """Derived quantities from scratch on the user's own model (no goose interface)."""
-    if model_kind == "liesel2":
+    if model_kind in ("liesel2", "liesel3"):
+        P_, D_ = (PARAMS2, DERIVED2) if model_kind == "liesel2" else (PARAMS3, DERIVED3)
         model.auto_update = False
-        for n, v in zip(PARAMS2, after):
-            model.vars[n].value = jnp.float32(v)
+        for n, v in zip(P_, after):
+            model.vars[n].value = jnp.asarray(int(v)) if n == "z" else jnp.float32(v)
         model.update()
-        return [fstr(np.float32(x)) for n in DERIVED2 for x in np.ravel(np.asarray(
+        return [fstr(np.float32(x)) for n in D_ for x in np.ravel(np.asarray(
             model.nodes[n].value if n in model.nodes else model.vars[n].value, np.float32))]
     b, st, m = np.float32(after[0:2]), np.float32(after[2]), np.float32(after[3])
     if model_kind == "liesel":
